@@ -439,7 +439,7 @@ class CtxAwareTransformer(NodeTransformer):
                 ctx.remove(value)
                 break
 
-    def _column_window(self, node, line, nlogical):
+    def _column_window(self, node, line, nlogical, idx=None):
         """Compute the (mincol, maxcol) window that brackets ``node`` in ``line``.
 
         Mirrors the column-based branch of ``try_subproc_toks`` and is used
@@ -449,6 +449,25 @@ class CtxAwareTransformer(NodeTransformer):
         """
         mincol = max(min_col(node) - 1, 0)
         maxcol = max_col(node)
+        if nlogical > 1 and idx is not None and "\n" not in line:
+            # A node that sits on ONE physical line of a backslash-continued
+            # logical line (an operand of ``cmd and \<newline> cmd``) gets its
+            # own window: its columns count from the start of its physical
+            # line, while ``line`` is the physical lines joined without their
+            # trailing backslash.  Without this every operand was given the
+            # window "up to the end of the logical line" and was replaced by
+            # the LAST command of the chain.
+            linenos = {getattr(n, "lineno", None) for n in walk(node)} - {None}
+            if len(linenos) == 1:
+                phys = linenos.pop() - 1
+                if idx <= phys < idx + nlogical:
+                    shift = sum(len(ln) - 1 for ln in self.lines[idx:phys])
+                    mincol += shift
+                    maxcol += shift
+                    if mincol != maxcol:
+                        if not (maxcol < len(line) and line[maxcol] == ";"):
+                            maxcol += 1
+                        return mincol, maxcol
         if mincol == maxcol:
             maxcol = find_next_break(line, mincol=mincol, lexer=self.parser.lexer)
         elif nlogical > 1:
@@ -474,7 +493,7 @@ class CtxAwareTransformer(NodeTransformer):
         # the precise window can't yield a parsable wrap.  When the node's
         # column metadata happens to be wrong (the original eval-mode use
         # case) the column attempt fails parse and the fallback runs.
-        col_window = self._column_window(node, line, nlogical)
+        col_window = self._column_window(node, line, nlogical, idx)
         if self.mode == "eval":
             eval_window = (len(line) - len(line.lstrip()), None)
             windows = [col_window, eval_window]
